@@ -566,28 +566,26 @@ def rule_B8(ctx: Ctx) -> None:
     gs, sc = f.params()[:2]
     exp = ("a given start cell is returned as it is (np.array of it); only for None a random cell is drawn with "
            "np.random.randint(0, high, size=len(grid_shape)), high = np.maximum(grid_shape - 1, 1) (or grid_shape): inside the grid on every axis")
-    none_key = N.boolean_nf(X.expr_of(f"{sc} is None")).key()
-    cands = X.value_candidates(f.node)
-    if not cands:
-        ctx.unknown(f, {}, exp, "no returned value found")
-        return
+    from sa import dtable as DT
+
+    rows = DT.table(f.node, {"no_start_given": [f"{sc} is None"]})
     seen = {"random": 0, "given": 0}
-    for val, conds in cands:
-        lits = set()
-        for t, lab in conds:
-            nf = N.boolean_nf(t, neg=(lab is False))
-            lits |= {a.key() for a in (N.nf_atoms(nf) if (isinstance(nf, N.Atom) or nf[0] == "and") else [])}
-        is_none_branch = none_key in lits
-        v = X.expand_locals(val, f.node, keep=(sc, gs))
-        if is_none_branch:
-            seen["random"] += 1
-            ok = X.same_expr_x(v, None, f"np.random.randint(0, np.maximum({gs} - 1, 1), size=len({gs}))", f"np.random.randint(0, {gs}, size=len({gs}))",
-                               f"np.random.randint(low=0, high=np.maximum({gs} - 1, 1), size=len({gs}))")
-            ctx.judge(f, ok, {"branch": f"{sc} is None", "value": X.U(v)[:120]}, exp, "the start cell can lie outside the grid (or have the wrong dimension)")
-        else:
+    for row in rows:
+        o = row["outcome"]
+        given = not row["assignment"]["no_start_given"]
+        extra = {k: v for k, v in row["assignment"].items() if k.startswith("?")}
+        if o[0] != "return" or o[1] is None:
+            ctx.judge(f, None if o[0] == "unknown" else False, {"branch": "given" if given else "None", "outcome": DT.outcome_str(o)[:120], **extra}, exp)
+            continue
+        if given:
             seen["given"] += 1
-            ok = X.same_expr_x(v, None, f"np.array({sc})", f"np.asarray({sc})")
-            ctx.judge(f, ok, {"branch": f"{sc} is not None", "value": X.U(v)[:120]}, exp, "a given start cell is not used as given")
+            ok = X.same_expr(o[1], f"np.array({sc})", f"np.asarray({sc})")
+            ctx.judge(f, ok, {"branch": f"{sc} is not None", "value": X.U(o[1])[:120], **extra}, exp, "a given start cell is not used as given")
+        else:
+            seen["random"] += 1
+            ok = X.same_expr(o[1], f"np.random.randint(0, np.maximum({gs} - 1, 1), size=len({gs}))", f"np.random.randint(0, {gs}, size=len({gs}))",
+                             f"np.random.randint(low=0, high=np.maximum({gs} - 1, 1), size=len({gs}))")
+            ctx.judge(f, ok, {"branch": f"{sc} is None", "value": X.U(o[1])[:120], **extra}, exp, "the start cell can lie outside the grid (or have the wrong dimension)")
     if not (seen["random"] and seen["given"]):
         ctx.violation(f, {"branches_seen": seen}, exp, "one of the two cases (given start / random start) is missing")
 
